@@ -169,8 +169,7 @@ def couplers(ctx):
     """inner = f(c(x)), outer = c(f(x)), additive = f(x)+p(x), and the three proxies with the argument routing swapped as documented"""
     for name, src in REF.items():
         f = ctx.func('mystic.coupler:%s.dec.func' % name)
-        got = SB.summary(f.node)
-        want = SB.summary_of_source(src)
+        got, want = SB.agree(f.node, src)
         ctx.stats['terms_compared'] += 1
         ctx.check(got == want, 'coupler.' + name, src.split('return ')[1].strip(), 'coupler.%s composes differently: %s' % (name, SB.diff(got, want)), f, f.node)
         dec = ctx.func('mystic.coupler:%s.dec' % name)
